@@ -30,7 +30,15 @@ Proof. unfold Reqb; destruct (Req_EM_T x y); split; intros; auto; discriminate. 
 (* reduce a generic model term instantiated at R down to an expression over the real operations *)
 Ltac rcompute :=
   cbv - [Rplus Rminus Rmult Rdiv Ropp Rinv sqrt Rabs IZR Rlt_dec Rle_dec Req_EM_T Rltb Rleb Reqb
-         cos sin tan atan asin acos exp ln PI Rpower].
+         cos sin tan atan asin acos exp ln PI Rpower INR Rsqr Rmax Rmin].
 Ltac rcompute_in H :=
   cbv - [Rplus Rminus Rmult Rdiv Ropp Rinv sqrt Rabs IZR Rlt_dec Rle_dec Req_EM_T Rltb Rleb Reqb
-         cos sin tan atan asin acos exp ln PI Rpower] in H.
+         cos sin tan atan asin acos exp ln PI Rpower INR Rsqr Rmax Rmin] in H.
+
+(* lighter: only replace the class operations by the real ones (no unfolding of anything else) *)
+Ltac rnum :=
+  change (@nadd R RNum) with Rplus in *; change (@nsub R RNum) with Rminus in *; change (@nmul R RNum) with Rmult in *;
+  change (@ndiv R RNum) with Rdiv in *; change (@nopp R RNum) with Ropp in *; change (@nsqrt R RNum) with sqrt in *;
+  change (@nabs R RNum) with Rabs in *; change (@n0 R RNum) with 0%R in *; change (@n1 R RNum) with 1%R in *;
+  change (@nltb R RNum) with Rltb in *; change (@nleb R RNum) with Rleb in *; change (@neqb R RNum) with Reqb in *;
+  change (@nofZ R RNum) with IZR in *.
